@@ -185,9 +185,13 @@ def _build_atoms(K, closure):
                                 atom.add(phi)
                             else:
                                 if Lang.Not(Lang.X(phi)) not in atom:
-                                    A_tail.append( atom | {Lang.Not(Lang.X(phi))})
+                                    A_tail.append(atom |
+                                                  {Lang.Not(Lang.X(phi)),
+                                                   neg_phi})
                                     atom.add(phi)
                                     atom.add(Lang.X(phi))
+                                else:
+                                    atom.add(neg_phi)
                         else:
                             atom.add(neg_phi)
 
